@@ -73,10 +73,16 @@ impl TryFrom<apollo_parser::cst::EnumTypeDefinition> for EnumTypeDef {
                 .unwrap_or_default(),
             enum_values_def: enum_def
                 .enum_values_definition()
-                .expect("must have enum values definition")
-                .enum_value_definitions()
-                .map(EnumValueDefinition::try_from)
-                .collect::<std::result::Result<_, _>>()?,
+                .map(|values_def| {
+                    values_def
+                        .enum_value_definitions()
+                        .map(EnumValueDefinition::try_from)
+                        .collect::<std::result::Result<_, _>>()
+                })
+                .transpose()?
+                // A definition or an extension may come without a values block
+                // (`extend enum E @d`)
+                .unwrap_or_default(),
             extend: false,
         })
     }
@@ -98,10 +104,16 @@ impl TryFrom<apollo_parser::cst::EnumTypeExtension> for EnumTypeDef {
                 .unwrap_or_default(),
             enum_values_def: enum_def
                 .enum_values_definition()
-                .expect("must have enum values definition")
-                .enum_value_definitions()
-                .map(EnumValueDefinition::try_from)
-                .collect::<std::result::Result<_, _>>()?,
+                .map(|values_def| {
+                    values_def
+                        .enum_value_definitions()
+                        .map(EnumValueDefinition::try_from)
+                        .collect::<std::result::Result<_, _>>()
+                })
+                .transpose()?
+                // A definition or an extension may come without a values block
+                // (`extend enum E @d`)
+                .unwrap_or_default(),
             extend: true,
         })
     }
